@@ -352,6 +352,8 @@ func (c13) Check(c *core.Case, env *core.Env, res zzsim.Result, v *core.Verdict)
 		lateEvent [2]map[int32]int64 // event n -> seq of the unregister ack it followed
 		evCount   [2]map[int32]int   // how often event n was sent on this connection
 		evRegs    [2]map[int32]int   // registrations of the signal on the connection when it was sent (max)
+		evAt      [2]map[int32][]int64
+		unregAcks [2][]int64 // unregister acknowledgements: seq at which the server wrote them
 	}
 	wires := map[int]*connWire{}
 	conns := env.NW.Conns()
@@ -359,7 +361,7 @@ func (c13) Check(c *core.Case, env *core.Env, res zzsim.Result, v *core.Verdict)
 		if pair >= len(conns) {
 			continue
 		}
-		cw := &connWire{lateEvent: [2]map[int32]int64{{}, {}}, evCount: [2]map[int32]int{{}, {}}, evRegs: [2]map[int32]int{{}, {}}}
+		cw := &connWire{lateEvent: [2]map[int32]int64{{}, {}}, evCount: [2]map[int32]int{{}, {}}, evRegs: [2]map[int32]int{{}, {}}, evAt: [2]map[int32][]int64{{}, {}}}
 		wires[ci] = cw
 		cc := conns[pair]
 		c2s, c2sMarks := cc.Sent()
@@ -413,6 +415,7 @@ func (c13) Check(c *core.Case, env *core.Env, res zzsim.Result, v *core.Verdict)
 						zeroAt[i] = 0
 					}
 				} else if f.Type == ref.Reply {
+					cw.unregAcks[i] = append(cw.unregAcks[i], c13seqOf(s2cMarks, f.End))
 					count[i]--
 					if count[i] == 0 {
 						zeroAt[i] = c13seqOf(s2cMarks, f.End)
@@ -438,6 +441,7 @@ func (c13) Check(c *core.Case, env *core.Env, res zzsim.Result, v *core.Verdict)
 					if regs > cw.evRegs[i][n] {
 						cw.evRegs[i][n] = regs
 					}
+					cw.evAt[i][n] = append(cw.evAt[i][n], at)
 				}
 				if zeroAt[i] == 0 || len(f.Payload) != 4 {
 					continue
@@ -510,8 +514,24 @@ func (c13) Check(c *core.Case, env *core.Env, res zzsim.Result, v *core.Verdict)
 				continue
 			}
 			if got[n] {
-				if cw != nil && cw.evCount[sig][n] > 1 && cw.evRegs[sig][n] < 2 {
-					bad("duplicate/sent-twice-with-one-registration", "%s received event %d twice: the server sent it %d times on this connection although at most one registration of the signal was active there: %v", name, n, cw.evCount[sig][n], s.evs)
+				// could two registrations of the signal have been active on this
+				// connection while the event was being emitted? (requested before
+				// the emission ended, not acknowledged as removed before it began)
+				maxRegs := 0
+				if cw != nil {
+					for _, r := range cw.regs[sig] {
+						if r.reqSeq < e.end {
+							maxRegs++
+						}
+					}
+					for _, a := range cw.unregAcks[sig] {
+						if a < e.start {
+							maxRegs--
+						}
+					}
+				}
+				if cw != nil && cw.evCount[sig][n] > 1 && maxRegs < 2 {
+					bad("duplicate/sent-twice-with-one-registration", "%s received event %d twice: the server sent it %d times on this connection although at most one registration of the signal was active there: %v\n  registrations (request written, reply written, reply read, ok): %v\n  unregister requests written at: %v; event written at: %v", name, n, cw.evCount[sig][n], s.evs, cw.regs[sig], cw.unregs[sig], cw.evAt[sig][n])
 				} else if cw != nil && cw.evCount[sig][n] > 1 {
 					bad("duplicate/sent-twice-on-connection", "%s received event %d twice: the server sent it %d times on this connection (two registrations of the signal were active): %v", name, n, cw.evCount[sig][n], s.evs)
 				} else {
